@@ -284,6 +284,10 @@ where
             ev_trig::<T>(ev, l, "tan", x);
         }
     }
+    // the edge of tan's domain, approached from inside in fine steps at every pole (systematic)
+    for x in tan_edge_block(l) {
+        ev_trig::<T>(ev, l, "tan", x);
+    }
 }
 
 /// Systematic sqrt operands on which a TRUNCATING Newton iteration does not settle on a fixed point but two-cycles
